@@ -559,3 +559,84 @@ func genC15Hist(tier string, rng *Rng) []Case {
 	}
 	return out
 }
+
+// ---------- C18: restart_on_redirect over redirect graphs ----------
+
+// Nodes are URLs http://o<i>.test/p<i> on three origin hosts. The client enters through
+// /r/start<i>, mapped to node i. Each node is final or redirects to node j with an absolute,
+// path-absolute or relative Location. A restarted request is matched against the rules again:
+// optional per-hop rules carry a host constraint o<i>.test (own overrides, own cache setting);
+// where none matches the parent rule is the fallback.
+func genC18(tier string, rng *Rng) []Case {
+	var out []Case
+	var graphs [][]int
+	for a := -1; a < 3; a++ {
+		for b := -1; b < 3; b++ {
+			for c := -1; c < 3; c++ {
+				graphs = append(graphs, []int{a, b, c})
+			}
+		}
+	}
+	loc := func(kind, from, to int) string {
+		switch kind {
+		case 0:
+			return fmt.Sprintf("http://o%d.test/p%d", to, to)
+		case 1:
+			return fmt.Sprintf("/p%d", to) // stays on the redirecting host
+		default:
+			return fmt.Sprintf("p%d", to) // relative reference
+		}
+	}
+	for gi, gph := range graphs {
+		for _, cached := range []bool{false, true} {
+			for _, kind := range []int{0, 0, 1, 2} {
+				if tier != "thorough" && kind != 0 && (gi+kind)%4 != 0 {
+					continue
+				}
+				g := &histGen{rng: rng}
+				var rules []Rule
+				hopRules := rng.Intn(3) // 0: none, 1: for o1 only, 2: for all hosts
+				for i := 0; i < 3; i++ {
+					if hopRules == 2 || (hopRules == 1 && i == 1) {
+						r := Rule{Enabled: true, Host: fmt.Sprintf("o%d.test", i), Path: "/*", Dest: fmt.Sprintf("http://o%d.test/$1", i), Type: 1, Restart: true,
+							RespHdrs: []KV{{"X-Hop-Rule", fmt.Sprint(i)}}}
+						v := fmt.Sprintf("hop-%d", i)
+						r.ReqHdrs = []KVOpt{{"x-hop", &v}}
+						if cached && rng.Chance(70, 100) {
+							r.Cache = "c1"
+						}
+						rules = append(rules, r)
+					}
+				}
+				for i := 0; i < 3; i++ {
+					r := Rule{Enabled: true, Path: fmt.Sprintf("/r/start%d", i), Dest: fmt.Sprintf("http://o%d.test/p%d", i, i), Type: 1, Restart: true}
+					if cached {
+						r.Cache = "c1"
+					}
+					rules = append(rules, r)
+				}
+				var script []HostScript
+				for i, tgt := range gph {
+					host := fmt.Sprintf("o%d.test", i)
+					if tgt < 0 {
+						body := fmt.Sprintf("final-%d", i)
+						script = append(script, HostScript{host, []Behaviour{{Status: 200, Hdrs: []KV{{"Content-Type", "text/plain"}, {"Content-Length", fmt.Sprint(len(body))}, {"Cache-Control", "max-age=600"}}, Body: body}}})
+					} else {
+						st := rng.Pick2([]int{301, 302, 307, 308})
+						script = append(script, HostScript{host, []Behaviour{{Status: st, Hdrs: []KV{{"Location", loc(kind, i, tgt)}, {"Cache-Control", "max-age=600"}, {"Content-Length", "0"}}, Body: ""}}})
+					}
+				}
+				g.ops = append(g.ops, Op{Kind: "script", Script: script})
+				start := fmt.Sprintf("/r/start%d", rng.Intn(3))
+				g.req("GET", start)
+				g.adv(1)
+				g.req("GET", start) // warm
+				if rng.Chance(30, 100) {
+					g.req("GET", fmt.Sprintf("/r/start%d", rng.Intn(3)))
+				}
+				out = append(out, mkCacheCase(rules, g.ops, nil))
+			}
+		}
+	}
+	return out
+}
